@@ -154,10 +154,11 @@ class StreamStatistics:
             self.max_seq = packet.sequence_number
 
             if packet.timestamp != self._last_timestamp and self.packets_received > 1:
-                diff = abs(
-                    (arrival - self._last_arrival)
-                    - (packet.timestamp - self._last_timestamp)
-                )
+                # RTP timestamps wrap around at 32 bits
+                timestamp_diff = (packet.timestamp - self._last_timestamp) & 0xFFFFFFFF
+                if timestamp_diff >= 0x80000000:
+                    timestamp_diff -= 0x100000000
+                diff = abs((arrival - self._last_arrival) - timestamp_diff)
                 self._jitter_q4 += diff - ((self._jitter_q4 + 8) >> 4)
 
             self._last_arrival = arrival
